@@ -69,50 +69,612 @@ theorem parseCompiled_total (ty : PType) (c : Compiled) (l : Text) (h : c.steps.
       | none => exact ⟨_, rfl⟩
       | some v => dsimp only; split <;> exact ⟨_, rfl⟩
 
-/-- pattern objects all of whose stepped parts are modelled -/
-def patModelled : Pat → Bool
+mutual
+/-- pattern objects all of whose stepped parts consist of modelled steps -/
+def patOK : Pat → Bool
   | .stepped c => c.steps.all stepModelled
-  | .zprefix (.stepped c) => c.steps.all stepModelled
-  | .zprefix (.composite [.stepped a, .stepped b, .stepped c]) =>
-    a.steps.all stepModelled && b.steps.all stepModelled && c.steps.all stepModelled
-  | .composite [.stepped a, .stepped b, .stepped c] =>
-    a.steps.all stepModelled && b.steps.all stepModelled && c.steps.all stepModelled
+  | .zprefix p => patOK p
+  | .composite ps => patsOK ps
+def patsOK : List Pat → Bool
+  | [] => true
+  | p :: ps => patOK p && patsOK ps
+end
+
+mutual
+/-- **parse_total** for pattern objects (stepped, `Z`-prefixed, composite, nested arbitrarily): for every text a
+    success or a failure result, never an exception -/
+theorem parsePat_total (ty : PType) (l : Text) : ∀ p : Pat, patOK p = true → ∃ r, parsePat ty l p = .ok r
+  | .stepped c, h => by simp only [patOK] at h; simp only [parsePat]; exact parseCompiled_total ty c l h
+  | .zprefix p, h => by
+      simp only [patOK] at h; rw [parsePat]
+      split
+      · exact ⟨_, rfl⟩
+      · exact parsePat_total ty l p h
+  | .composite ps, h => by
+      simp only [patOK] at h; rw [parsePat]
+      split
+      · exact ⟨_, rfl⟩
+      · exact parsePats_total ty l ps h
+theorem parsePats_total (ty : PType) (l : Text) : ∀ ps : List Pat, patsOK ps = true → ∃ r, parsePats ty l ps = .ok r
+  | [], _ => by rw [parsePats]; exact ⟨_, rfl⟩
+  | p :: ps, h => by
+      simp only [patsOK, Bool.and_eq_true] at h
+      rw [parsePats]
+      obtain ⟨r, hr⟩ := parsePat_total ty l p h.1
+      rw [hr]
+      cases r with
+      | some v => exact ⟨_, rfl⟩
+      | none => exact parsePats_total ty l ps h.2
+end
+
+/-! ## what `compile` builds is modelled (LocalTime and Offset: always) -/
+
+/-- the handler kept the steps so far and added only modelled ones -/
+def Grows (st st' : CSt) : Prop := ∃ added, st'.steps = st.steps ++ added ∧ added.all stepModelled = true
+
+theorem grows_refl (st : CSt) : Grows st st := ⟨[], by simp, rfl⟩
+
+theorem addField_steps (st st' : CSt) (bit : Nat) (h : addField st bit = .ok st') : st'.steps = st.steps := by
+  unfold addField at h
+  split at h
+  · cases h
+  · injection h with h; rw [← h]
+
+theorem grows_addStep (st : CSt) (s : Step) (h : stepModelled s = true) : Grows st (addStep st s) :=
+  ⟨[s], rfl, by simp [h]⟩
+
+theorem grows_of_steps_eq (st st1 st' : CSt) (e : st1.steps = st.steps) (g : Grows st1 st') : Grows st st' := by
+  obtain ⟨a, h1, h2⟩ := g; exact ⟨a, by rw [h1, e], h2⟩
+
+theorem handlePadded_grows (c : Char) (rest : Text) (st : CSt) (maxCount bit : Nat) (minV maxV : Int) (slot : Slot)
+    (st' : CSt) (k : Nat) (h : handlePadded c rest st maxCount bit minV maxV slot = .ok (st', k)) : Grows st st' := by
+  unfold handlePadded at h
+  cases h1 : repeatCount c rest maxCount with
+  | error e => rw [h1] at h; cases h
+  | ok n =>
+    rw [h1] at h; dsimp only at h
+    cases h2 : addField st bit with
+    | error e => rw [h2] at h; cases h
+    | ok st1 =>
+      rw [h2] at h; injection h with h; injection h with h _
+      rw [← h]
+      exact grows_of_steps_eq st st1 _ (addField_steps st st1 bit h2) (grows_addStep st1 _ rfl)
+
+theorem handleCounted_grows (c : Char) (rest : Text) (st : CSt) (maxCount bit : Nat) (mk : Nat → Step)
+    (hmk : ∀ n, stepModelled (mk n) = true)
+    (st' : CSt) (k : Nat) (h : handleCounted c rest st maxCount bit mk = .ok (st', k)) : Grows st st' := by
+  unfold handleCounted at h
+  cases h1 : repeatCount c rest maxCount with
+  | error e => rw [h1] at h; cases h
+  | ok n =>
+    rw [h1] at h; dsimp only at h
+    cases h2 : addField st bit with
+    | error e => rw [h2] at h; cases h
+    | ok st1 =>
+      rw [h2] at h; injection h with h; injection h with h _
+      rw [← h]
+      exact grows_of_steps_eq st st1 _ (addField_steps st st1 bit h2) (grows_addStep st1 _ (hmk n))
+
+theorem handleSingle_grows (st : CSt) (bit : Nat) (step : Step) (hs : stepModelled step = true)
+    (st' : CSt) (k : Nat) (h : handleSingle st bit step = .ok (st', k)) : Grows st st' := by
+  unfold handleSingle at h
+  cases h2 : addField st bit with
+  | error e => rw [h2] at h; cases h
+  | ok st1 =>
+    rw [h2] at h; injection h with h; injection h with h _
+    rw [← h]
+    exact grows_of_steps_eq st st1 _ (addField_steps st st1 bit h2) (grows_addStep st1 _ hs)
+
+theorem handleDot_grows (comma : Bool) (rest : Text) (st st' : CSt) (k : Nat)
+    (h : handleDot comma rest st = .ok (st', k)) : Grows st st' := by
+  unfold handleDot at h
+  split at h
+  · rename_i r
+    cases h1 : repeatCount 'F' r 9 with
+    | error e => rw [h1] at h; cases h
+    | ok n =>
+      rw [h1] at h; dsimp only at h
+      cases h2 : addField st F.fraction with
+      | error e => rw [h2] at h; cases h
+      | ok st1 =>
+        rw [h2] at h; injection h with h; injection h with h _
+        rw [← h]
+        exact grows_of_steps_eq st st1 _ (addField_steps st st1 _ h2) (grows_addStep st1 _ rfl)
+  · injection h with h; injection h with h _
+    rw [← h]
+    cases comma <;> exact grows_addStep st _ rfl
+
+theorem handleFraction_grows (c : Char) (rest : Text) (st st' : CSt) (k : Nat)
+    (h : handleFraction c rest st = .ok (st', k)) : Grows st st' := by
+  unfold handleFraction at h
+  cases h1 : repeatCount c rest 9 with
+  | error e => rw [h1] at h; cases h
+  | ok n =>
+    rw [h1] at h; dsimp only at h
+    cases h2 : addField st F.fraction with
+    | error e => rw [h2] at h; cases h
+    | ok st1 =>
+      rw [h2] at h; injection h with h; injection h with h _
+      rw [← h]
+      exact grows_of_steps_eq st st1 _ (addField_steps st st1 _ h2) (grows_addStep st1 _ rfl)
+
+theorem handleDefault_grows (c : Char) (st st' : CSt) (k : Nat) (h : handleDefault c st = .ok (st', k)) : Grows st st' := by
+  unfold handleDefault at h
+  split at h
+  · cases h
+  · injection h with h; injection h with h _; rw [← h]; exact grows_addStep st _ rfl
+
+theorem handleCommon_grows (c : Char) (rest : Text) (st st' : CSt) (k : Nat)
+    (h : handleCommon c rest st = some (.ok (st', k))) : Grows st st' := by
+  unfold handleCommon at h
+  split at h
+  · injection h with h
+    unfold handlePercent at h
+    split at h
+    · cases h
+    · split at h
+      · cases h
+      · injection h with h; injection h with h _; rw [← h]; exact grows_refl st
+  · split at h
+    · injection h with h
+      unfold handleQuote at h
+      cases hq : quotedString c rest with
+      | error e => rw [hq] at h; cases h
+      | ok p => rw [hq] at h; injection h with h; injection h with h _; rw [← h]; exact grows_addStep st _ rfl
+    · split at h
+      · injection h with h
+        unfold handleBackslash at h
+        split at h
+        · cases h
+        · injection h with h; injection h with h _; rw [← h]; exact grows_addStep st _ rfl
+      · cases h
+
+set_option hygiene false in
+macro "grows_cases" : tactic => `(tactic|
+  repeat' (first
+    | exact handleDot_grows _ _ _ _ _ h
+    | exact handlePadded_grows _ _ _ _ _ _ _ _ _ _ h
+    | exact handleFraction_grows _ _ _ _ _ h
+    | exact handleCounted_grows _ _ _ _ _ _ (fun _ => rfl) _ _ h
+    | exact handleSingle_grows _ _ _ rfl _ _ h
+    | exact handleDefault_grows _ _ _ _ h
+    | (injection h with h'; injection h' with h'' _; rw [← h'']; exact grows_addStep _ _ rfl)
+    | cases h
+    | split at h))
+
+theorem handleTime_grows (cu : Culture) (c : Char) (rest : Text) (st st' : CSt) (k : Nat)
+    (h : handleTime cu c rest st = .ok (st', k)) : Grows st st' := by
+  unfold handleTime at h
+  cases hc : handleCommon c rest st with
+  | some r => rw [hc] at h; dsimp only at h; rw [h] at hc; exact handleCommon_grows c rest st st' k hc
+  | none => rw [hc] at h; dsimp only at h; grows_cases
+
+theorem handleOffset_grows (cu : Culture) (c : Char) (rest : Text) (st st' : CSt) (k : Nat)
+    (h : handleOffset cu c rest st = .ok (st', k)) : Grows st st' := by
+  unfold handleOffset at h
+  cases hc : handleCommon c rest st with
+  | some r => rw [hc] at h; dsimp only at h; rw [h] at hc; exact handleCommon_grows c rest st st' k hc
+  | none => rw [hc] at h; dsimp only at h; grows_cases
+
+theorem compileLoop_modelled (ty : PType) (hty : ty ≠ .date) (cu : Culture) : ∀ (fuel : Nat) (text : Text) (st st' : CSt),
+    compileLoop ty cu fuel text st = .ok st' → st.steps.all stepModelled = true → st'.steps.all stepModelled = true := by
+  intro fuel
+  induction fuel with
+  | zero =>
+    intro text st st' h hs
+    cases text with
+    | nil => unfold compileLoop at h; injection h with h; rw [← h]; exact hs
+    | cons c r => unfold compileLoop at h; cases h
+  | succ f ih =>
+    intro text st st' h hs
+    cases text with
+    | nil => unfold compileLoop at h; injection h with h; rw [← h]; exact hs
+    | cons c rest =>
+      unfold compileLoop at h
+      cases hh : handleChar ty cu c rest st with
+      | error e => rw [hh] at h; cases h
+      | ok p =>
+        obtain ⟨st1, k⟩ := p
+        rw [hh] at h; dsimp only at h
+        have g : Grows st st1 := by
+          unfold handleChar at hh
+          cases ty with
+          | time => exact handleTime_grows cu c rest st st1 k hh
+          | date => exact absurd rfl hty
+          | offset => exact handleOffset_grows cu c rest st st1 k hh
+        obtain ⟨added, e1, e2⟩ := g
+        exact ih _ st1 st' h (by rw [e1, List.all_append, hs, e2]; rfl)
+
+/-- every LocalTime / Offset stepped pattern that `compileCustom` builds consists of modelled steps -/
+theorem compileCustom_modelled (ty : PType) (hty : ty ≠ .date) (cu : Culture) (text : Text) (c : Compiled)
+    (h : compileCustom ty cu text = .ok c) : c.steps.all stepModelled = true := by
+  unfold compileCustom at h
+  cases h1 : compileLoop ty cu text.length text ⟨0, []⟩ with
+  | error e => rw [h1] at h; cases h
+  | ok st =>
+    rw [h1] at h; dsimp only at h
+    split at h
+    · cases h
+    · injection h with h; rw [← h]
+      exact compileLoop_modelled ty hty cu _ _ _ _ h1 rfl
+
+theorem steppedOf_patOK (ty : PType) (hty : ty ≠ .date) (cu : Culture) (t : Text) (p : Pat)
+    (h : steppedOf (compileCustom ty cu t) = .ok p) : patOK p = true := by
+  unfold steppedOf at h
+  cases hc : compileCustom ty cu t with
+  | error e => rw [hc] at h; cases h
+  | ok c =>
+    rw [hc] at h; injection h with h; rw [← h]
+    simp only [patOK]
+    exact compileCustom_modelled ty hty cu t c hc
+
+theorem compileTime_patOK (cu : Culture) (ptext : Text) (p : Pat) (h : compileTime cu ptext = .ok p) : patOK p = true := by
+  unfold compileTime at h
+  split at h
+  · cases h
+  · repeat' (first | exact steppedOf_patOK .time (by decide) _ _ p h | cases h | split at h)
+  · exact steppedOf_patOK .time (by decide) _ _ p h
+
+theorem compileOffsetText_patOK (cu : Culture) (t : Text) (p : Pat) (h : compileOffsetText cu t = .ok p) : patOK p = true := by
+  unfold compileOffsetText at h
+  split at h
+  · cases h
+  · split at h
+    · rename_i rest _
+      cases hc : compileCustom .offset cu rest with
+      | error e => rw [hc] at h; cases h
+      | ok c =>
+        rw [hc] at h; injection h with h; rw [← h]
+        simp only [patOK]
+        exact compileCustom_modelled .offset (by decide) cu rest c hc
+    · exact steppedOf_patOK .offset (by decide) _ _ p h
+
+theorem sequenceR_patsOK (l : List (R Pat)) (hl : ∀ r ∈ l, ∀ p, r = .ok p → patOK p = true) (ps : List Pat)
+    (h : sequenceR l = .ok ps) : patsOK ps = true := by
+  induction l generalizing ps with
+  | nil => unfold sequenceR at h; injection h with h; rw [← h]; rfl
+  | cons r rs ih =>
+    unfold sequenceR at h
+    cases hr : r with
+    | error e => rw [hr] at h; cases h
+    | ok a =>
+      rw [hr] at h; dsimp only at h
+      cases hs : sequenceR rs with
+      | error e => rw [hs] at h; cases h
+      | ok as =>
+        rw [hs] at h; injection h with h; rw [← h]
+        simp only [patsOK, Bool.and_eq_true]
+        exact ⟨hl r (by simp) a hr, ih (fun x hx => hl x (by simp [hx])) as hs⟩
+
+theorem mapR_ok {α β : Type} (f : α → β) (r : R α) (b : β) (h : mapR f r = .ok b) : ∃ a, r = .ok a ∧ b = f a := by
+  unfold mapR at h
+  cases r with
+  | error e => cases h
+  | ok a => injection h with h; exact ⟨a, rfl, h.symm⟩
+
+theorem compileOffsetAux_patOK (cu : Culture) : ∀ (d : Nat) (t : Text) (p : Pat),
+    compileOffsetAux cu d t = .ok p → patOK p = true := by
+  intro d
+  induction d with
+  | zero => intro t p h; unfold compileOffsetAux at h; cases h
+  | succ d ih =>
+    intro t p h
+    unfold compileOffsetAux at h
+    have comp : ∀ a b c : Text, ∀ q, mapR Pat.composite (sequenceR [compileOffsetAux cu d a, compileOffsetAux cu d b, compileOffsetAux cu d c]) = .ok q →
+        patOK q = true := by
+      intro a b c q hq
+      obtain ⟨ps, hs, rfl⟩ := mapR_ok _ _ _ hq
+      simp only [patOK]
+      apply sequenceR_patsOK _ _ ps hs
+      intro r hr p' hp'
+      simp only [List.mem_cons, List.mem_nil_iff, or_false] at hr
+      rcases hr with rfl | rfl | rfl <;> exact ih _ _ hp'
+    have zp : ∀ t' q, mapR Pat.zprefix (compileOffsetAux cu d t') = .ok q → patOK q = true := by
+      intro t' q hq
+      obtain ⟨p', hs, rfl⟩ := mapR_ok _ _ _ hq
+      simp only [patOK]; exact ih _ _ hs
+    split at h
+    · cases h
+    · repeat' (first
+        | exact comp _ _ _ p h
+        | exact zp _ p h
+        | exact compileOffsetText_patOK cu _ p h
+        | cases h
+        | split at h)
+    · exact compileOffsetText_patOK cu _ p h
+
+/-- **parse_total** for LocalTime and Offset patterns: whatever pattern text was accepted, in whatever culture
+    record, parsing any text returns a result value (a success or a failure), never an exception -/
+theorem time_parse_total (cu : Culture) (ptext : Text) (p : Pat) (h : compileTime cu ptext = .ok p) (l : Text) :
+    ∃ r, parsePat .time l p = .ok r :=
+  parsePat_total .time l p (compileTime_patOK cu ptext p h)
+
+theorem offset_parse_total (cu : Culture) (ptext : Text) (p : Pat) (h : compileOffset cu ptext = .ok p) (l : Text) :
+    ∃ r, parsePat .offset l p = .ok r :=
+  parsePat_total .offset l p (compileOffsetAux_patOK cu 3 ptext p h)
+
+/-- LocalDate patterns: the same for every compiled pattern that does not use the era / calendar fields -/
+theorem date_parse_total (p : Pat) (hp : patOK p = true) (l : Text) : ∃ r, parsePat .date l p = .ok r :=
+  parsePat_total .date l p hp
+
+/-! ## a success carries a valid value (Offset: every pattern object, whatever its steps) -/
+
+theorem parseCompiled_offset_valid (c : Compiled) (l : Text) (v : List Int)
+    (h : parseCompiled .offset c l = .ok (some v)) : ∃ s, v = [s] ∧ -64800 ≤ s ∧ s ≤ 64800 := by
+  unfold parseCompiled at h
+  split at h
+  · cases h
+  · cases hp : parseSteps c.cu c.steps l (bucket0 .offset) with
+    | error e => rw [hp] at h; cases h
+    | ok o =>
+      rw [hp] at h
+      cases o with
+      | none => cases h
+      | some q =>
+        obtain ⟨b, rest⟩ := q
+        dsimp only at h
+        unfold bucketValue offsetBucketValue at h
+        dsimp only at h
+        cases hv : offsetValue (decide (b .sign = 1)) (b .hours24) (b .minutes) (b .seconds) with
+        | error e => rw [hv] at h; cases h
+        | ok ov =>
+          rw [hv] at h
+          cases ov with
+          | none => cases h
+          | some s =>
+            simp only [mapR, Option.map] at h
+            split at h
+            · injection h with h; injection h with h
+              exact ⟨s, h.symm, offsetValue_range _ _ _ _ s hv⟩
+            · cases h
+
+mutual
+/-- Offset pattern objects of any shape: a success is an offset within ±18 h -/
+theorem parsePat_offset_valid (l : Text) : ∀ (p : Pat) (v : List Int), parsePat .offset l p = .ok (some v) →
+    ∃ s, v = [s] ∧ -64800 ≤ s ∧ s ≤ 64800
+  | .stepped c, v, h => by simp only [parsePat] at h; exact parseCompiled_offset_valid c l v h
+  | .zprefix p, v, h => by
+      rw [parsePat] at h
+      split at h
+      · injection h with h; injection h with h; exact ⟨0, h.symm, by decide, by decide⟩
+      · exact parsePat_offset_valid l p v h
+  | .composite ps, v, h => by
+      rw [parsePat] at h
+      split at h
+      · cases h
+      · exact parsePats_offset_valid l ps v h
+theorem parsePats_offset_valid (l : Text) : ∀ (ps : List Pat) (v : List Int), parsePats .offset l ps = .ok (some v) →
+    ∃ s, v = [s] ∧ -64800 ≤ s ∧ s ≤ 64800
+  | [], v, h => by rw [parsePats] at h; cases h
+  | p :: ps, v, h => by
+      rw [parsePats] at h
+      cases hp : parsePat .offset l p with
+      | error e => rw [hp] at h; cases h
+      | ok o =>
+        rw [hp] at h
+        cases o with
+        | some w => dsimp only at h; injection h with h; injection h with h; subst h; exact parsePat_offset_valid l p w hp
+        | none => exact parsePats_offset_valid l ps v h
+end
+
+/-! ## a success carries a valid value (LocalTime: every list of well-formed time steps) -/
+
+/-- the steps the LocalTime handler table can produce (field ranges as in `_LocalTimePatternParser`) -/
+def timeStepWF : Step → Bool
+  | .lit _ => true
+  | .semi => true
+  | .amPm _ => true
+  | .frac count scale _ => decide (count ≤ 9) && decide (scale = 9)
+  | .dotFrac count scale _ => decide (count ≤ 9) && decide (scale = 9)
+  | .num _ st _ _ minV maxV =>
+    (decide (st = .hours12) && decide (minV = 1) && decide (maxV = 12)) ||
+    (decide (st = .hours24) && decide (minV = 0) && decide (maxV = 23)) ||
+    (decide (st = .minutes) && decide (minV = 0) && decide (maxV = 59)) ||
+    (decide (st = .seconds) && decide (minV = 0) && decide (maxV = 59))
   | _ => false
 
-theorem parseComposite3_total (ty : PType) (l : Text) (a b c : Compiled)
-    (ha : a.steps.all stepModelled = true) (hb : b.steps.all stepModelled = true) (hc : c.steps.all stepModelled = true) :
-    ∃ r, parsePat ty l (.composite [.stepped a, .stepped b, .stepped c]) = .ok r := by
-  obtain ⟨ra, ea⟩ := parseCompiled_total ty a l ha
-  obtain ⟨rb, eb⟩ := parseCompiled_total ty b l hb
-  obtain ⟨rc, ec⟩ := parseCompiled_total ty c l hc
-  simp only [parsePat, parsePats, ea, eb, ec]
-  split
-  · exact ⟨_, rfl⟩
-  · cases ra with
-    | some v => exact ⟨_, rfl⟩
-    | none =>
-      cases rb with
-      | some v => exact ⟨_, rfl⟩
-      | none => cases rc <;> exact ⟨_, rfl⟩
+/-- field values a LocalTime bucket can hold -/
+structure TimeBucketOK (b : Bucket) : Prop where
+  h24 : 0 ≤ b .hours24 ∧ b .hours24 ≤ 23
+  h12 : 0 ≤ b .hours12 ∧ b .hours12 ≤ 12
+  mi : 0 ≤ b .minutes ∧ b .minutes ≤ 59
+  se : 0 ≤ b .seconds ∧ b .seconds ≤ 59
+  fr : 0 ≤ b .fraction ∧ b .fraction < 1000000000
+  ap : b .amPm = 0 ∨ b .amPm = 1 ∨ b .amPm = 2
 
-/-- **parse_total** for pattern objects of the shapes `compile` builds (stepped, `Z`-prefixed, composite) -/
-theorem parsePat_total (ty : PType) (l : Text) (p : Pat) (h : patModelled p = true) :
-    ∃ r, parsePat ty l p = .ok r := by
-  match p, h with
-  | .stepped c, h => simp only [patModelled] at h; simp only [parsePat]; exact parseCompiled_total ty c l h
-  | .zprefix (.stepped c), h =>
-    simp only [patModelled] at h; simp only [parsePat]
-    split
-    · exact ⟨_, rfl⟩
-    · exact parseCompiled_total ty c l h
-  | .zprefix (.composite [.stepped a, .stepped b, .stepped c]), h =>
-    simp only [patModelled, Bool.and_eq_true] at h
-    rw [parsePat]
-    split
-    · exact ⟨_, rfl⟩
-    · exact parseComposite3_total ty l a b c h.1.1 h.1.2 h.2
-  | .composite [.stepped a, .stepped b, .stepped c], h =>
-    simp only [patModelled, Bool.and_eq_true] at h
-    exact parseComposite3_total ty l a b c h.1.1 h.1.2 h.2
+theorem timeBucket0_ok : TimeBucketOK (bucket0 .time) := by
+  refine ⟨?_, ?_, ?_, ?_, ?_, ?_⟩ <;> simp only [bucket0, timeBucket0] <;> decide
+
+theorem parseAmPm_range (cu : Culture) (count : Nat) (l : Text) (v : Int) (r : Text)
+    (h : parseAmPm cu count l = some (v, r)) : v = 0 ∨ v = 1 ∨ v = 2 := by
+  unfold parseAmPm at h
+  split at h
+  · injection h with h; injection h with h _; omega
+  · split at h
+    · dsimp only at h
+      split at h <;> (injection h with h; injection h with h _; split at h <;> omega)
+    · split at h
+      · split at h
+        · injection h with h; injection h with h _; omega
+        · split at h
+          · injection h with h; injection h with h _; omega
+          · cases h
+      · dsimp only at h
+        split at h
+        · injection h with h; injection h with h _; split at h <;> omega
+        · split at h
+          · injection h with h; injection h with h _; split at h <;> omega
+          · cases h
+
+theorem parseStep_time_ok (cu : Culture) (l : Text) (b b' : Bucket) (r : Text) (s : Step)
+    (hw : timeStepWF s = true) (hb : TimeBucketOK b) (h : parseStep cu l b s = .ok (some (b', r))) : TimeBucketOK b' := by
+  cases s with
+  | lit t =>
+    simp only [parseStep] at h
+    split at h
+    · injection h with h; injection h with h; injection h with h _; rw [← h]; exact hb
+    · cases h
+  | semi =>
+    simp only [parseStep] at h
+    split at h
+    · injection h with h; injection h with h; injection h with h _; rw [← h]; exact hb
+    · cases h
+  | amPm count =>
+    simp only [parseStep] at h
+    cases hp : parseAmPm cu count l with
+    | none => rw [hp] at h; cases h
+    | some q =>
+      obtain ⟨v, r'⟩ := q
+      rw [hp] at h; injection h with h; injection h with h; injection h with h _
+      have hv := parseAmPm_range cu count l v r' hp
+      rw [← h]
+      obtain ⟨a1, a2, a3, a4, a5, a6⟩ := hb
+      exact ⟨by simpa [Bucket.set] using a1, by simpa [Bucket.set] using a2, by simpa [Bucket.set] using a3,
+        by simpa [Bucket.set] using a4, by simpa [Bucket.set] using a5, by simpa [Bucket.set] using hv⟩
+  | frac count scale fixed =>
+    simp only [timeStepWF, Bool.and_eq_true, decide_eq_true_eq] at hw
+    obtain ⟨hc, rfl⟩ := hw
+    simp only [parseStep] at h
+    rcases parseFraction_total count 9 (if fixed = true then count else 0) l hc with e | ⟨v, r', e, hv⟩
+    · rw [e] at h; cases h
+    · rw [e] at h; injection h with h; injection h with h; injection h with h _
+      rw [← h]
+      obtain ⟨a1, a2, a3, a4, a5, a6⟩ := hb
+      have : (10 : Nat) ^ 9 = 1000000000 := by decide
+      exact ⟨by simpa [Bucket.set] using a1, by simpa [Bucket.set] using a2, by simpa [Bucket.set] using a3,
+        by simpa [Bucket.set] using a4, by simp only [Bucket.set, if_true]; omega, by simpa [Bucket.set] using a6⟩
+  | dotFrac count scale comma =>
+    simp only [timeStepWF, Bool.and_eq_true, decide_eq_true_eq] at hw
+    obtain ⟨hc, rfl⟩ := hw
+    simp only [parseStep] at h
+    split at h
+    · injection h with h; injection h with h; injection h with h _; rw [← h]; exact hb
+    · rename_i r0 _
+      rcases parseFraction_total count 9 1 r0 hc with e | ⟨v, r', e, hv⟩
+      · rw [e] at h; cases h
+      · rw [e] at h; injection h with h; injection h with h; injection h with h _
+        rw [← h]
+        obtain ⟨a1, a2, a3, a4, a5, a6⟩ := hb
+        have : (10 : Nat) ^ 9 = 1000000000 := by decide
+        exact ⟨by simpa [Bucket.set] using a1, by simpa [Bucket.set] using a2, by simpa [Bucket.set] using a3,
+          by simpa [Bucket.set] using a4, by simp only [Bucket.set, if_true]; omega, by simpa [Bucket.set] using a6⟩
+  | num g st count maxCount minV maxV =>
+    simp only [parseStep] at h
+    cases hp : parseField count maxCount minV maxV l with
+    | none => rw [hp] at h; cases h
+    | some q =>
+      obtain ⟨v, r'⟩ := q
+      rw [hp] at h; injection h with h; injection h with h; injection h with h _
+      have hr := parseField_range count maxCount minV maxV l v r' hp
+      rw [← h]
+      obtain ⟨a1, a2, a3, a4, a5, a6⟩ := hb
+      simp only [timeStepWF, Bool.or_eq_true, Bool.and_eq_true, decide_eq_true_eq] at hw
+      rcases hw with ((⟨⟨rfl, rfl⟩, rfl⟩ | ⟨⟨rfl, rfl⟩, rfl⟩) | ⟨⟨rfl, rfl⟩, rfl⟩) | ⟨⟨rfl, rfl⟩, rfl⟩
+      · exact ⟨by simpa [Bucket.set] using a1, by simp only [Bucket.set, if_true]; omega, by simpa [Bucket.set] using a3,
+          by simpa [Bucket.set] using a4, by simpa [Bucket.set] using a5, by simpa [Bucket.set] using a6⟩
+      · exact ⟨by simp only [Bucket.set, if_true]; omega, by simpa [Bucket.set] using a2, by simpa [Bucket.set] using a3,
+          by simpa [Bucket.set] using a4, by simpa [Bucket.set] using a5, by simpa [Bucket.set] using a6⟩
+      · exact ⟨by simpa [Bucket.set] using a1, by simpa [Bucket.set] using a2, by simp only [Bucket.set, if_true]; omega,
+          by simpa [Bucket.set] using a4, by simpa [Bucket.set] using a5, by simpa [Bucket.set] using a6⟩
+      · exact ⟨by simpa [Bucket.set] using a1, by simpa [Bucket.set] using a2, by simpa [Bucket.set] using a3,
+          by simp only [Bucket.set, if_true]; omega, by simpa [Bucket.set] using a5, by simpa [Bucket.set] using a6⟩
+  | signRequired => simp [timeStepWF] at hw
+  | signNegativeOnly => simp [timeStepWF] at hw
+  | monthText _ => simp [timeStepWF] at hw
+  | dayText _ => simp [timeStepWF] at hw
+  | era => simp [timeStepWF] at hw
+  | calendar => simp [timeStepWF] at hw
+
+theorem parseSteps_time_ok (cu : Culture) : ∀ (ss : List Step) (l : Text) (b b' : Bucket) (r : Text),
+    ss.all timeStepWF = true → TimeBucketOK b → parseSteps cu ss l b = .ok (some (b', r)) → TimeBucketOK b' := by
+  intro ss
+  induction ss with
+  | nil =>
+    intro l b b' r _ hb h
+    simp only [parseSteps] at h; injection h with h; injection h with h; injection h with h _; rw [← h]; exact hb
+  | cons s ss ih =>
+    intro l b b' r hw hb h
+    simp only [List.all_cons, Bool.and_eq_true] at hw
+    simp only [parseSteps] at h
+    cases hp : parseStep cu l b s with
+    | error e => rw [hp] at h; cases h
+    | ok o =>
+      rw [hp] at h
+      cases o with
+      | none => cases h
+      | some q =>
+        obtain ⟨b1, l1⟩ := q
+        exact ih l1 b1 b' r hw.2 (parseStep_time_ok cu l b b1 l1 s hw.1 hb hp) h
+
+theorem csharpMod12_range (x : Int) (h0 : 0 ≤ x) : 0 ≤ csharpMod x 12 ∧ csharpMod x 12 ≤ 11 := by
+  rw [csharpMod_pos x 12 (by decide)]
+  have : ¬ (x < 0 ∧ 0 < x % 12) := by omega
+  rw [if_neg this]; omega
+
+/-- `_LocalTimeParseBucket.calculate_value` on an in-range bucket yields a nanosecond-of-day inside the day -/
+theorem timeValue_valid (used : Nat) (b : Bucket) (hb : TimeBucketOK b) (nod : Int) (h : timeValue 0 used b = some nod) :
+    0 ≤ nod ∧ nod < 86400000000000 := by
+  obtain ⟨a1, a2, a3, a4, a5, a6⟩ := hb
+  have hm := csharpMod12_range (b .hours12) a2.1
+  have t0 : ltHour 0 = 0 := by decide
+  have fin : ∀ hour : Int, 0 ≤ hour → hour ≤ 23 →
+      ltFromHmsn hour (b .minutes) (b .seconds) (b .fraction) = nod → 0 ≤ nod ∧ nod < 86400000000000 := by
+    intro hour h0 h1 e; rw [← e]; unfold ltFromHmsn NPH NPMin NPS; omega
+  unfold timeValue at h
+  rw [t0] at h
+  have td : Int.tdiv 0 12 = 0 := by decide
+  have cm : csharpMod 0 12 = 0 := by decide
+  simp only [td, cm] at h
+  split at h
+  · injection h with h; exact fin _ a1.1 a1.2 h
+  · generalize hap : (if b .amPm = 2 then (0 : Int) else b .amPm) = ap at h
+    have hap' : ap = 0 ∨ ap = 1 := by
+      rw [← hap]; split
+      · left; rfl
+      · rcases a6 with e | e | e
+        · left; exact e
+        · right; exact e
+        · rename_i hne; exact absurd e hne
+    split at h
+    · split at h
+      · cases h
+      · split at h
+        · cases h
+        · injection h with h; exact fin _ a1.1 a1.2 h
+    · split at h
+      · injection h with h; refine fin _ ?_ ?_ h <;> rcases hap' with e | e <;> rw [e] <;> omega
+      · split at h
+        · injection h with h; refine fin _ ?_ ?_ h <;> omega
+        · split at h
+          · injection h with h; refine fin _ ?_ ?_ h <;> rcases hap' with e | e <;> rw [e] <;> omega
+          · injection h with h; exact fin _ (by omega) (by omega) h
+
+/-- **success_value_valid** for LocalTime patterns of any well-formed steps: a success is a time inside the day -/
+theorem parseCompiled_time_valid (c : Compiled) (l : Text) (v : List Int) (hw : c.steps.all timeStepWF = true)
+    (h : parseCompiled .time c l = .ok (some v)) : ∃ nod, v = [nod] ∧ 0 ≤ nod ∧ nod < 86400000000000 := by
+  unfold parseCompiled at h
+  split at h
+  · cases h
+  · cases hp : parseSteps c.cu c.steps l (bucket0 .time) with
+    | error e => rw [hp] at h; cases h
+    | ok o =>
+      rw [hp] at h
+      cases o with
+      | none => cases h
+      | some q =>
+        obtain ⟨b, rest⟩ := q
+        dsimp only at h
+        have hb := parseSteps_time_ok c.cu c.steps l _ b rest hw timeBucket0_ok hp
+        unfold bucketValue at h
+        dsimp only at h
+        cases hv : timeValue 0 c.used b with
+        | none => rw [hv] at h; cases h
+        | some nod =>
+          rw [hv] at h
+          simp only [Option.map] at h
+          split at h
+          · injection h with h; injection h with h
+            exact ⟨nod, h.symm, timeValue_valid c.used b hb nod hv⟩
+          · cases h
 
 end Pyoda.C08
